@@ -1,11 +1,12 @@
 (* wave 7 requests of C12 / C13 / C18:
    1211  the DFXP document as written (model/DfxpClean.v: region table, body tree with region attributes, cleanup_regions)
+   1213  the cue settings WebVTTReader keeps from a timing line (model/VttSettings.v) and the line the writer prints for them
    1320  DFXPWriter with inline positioning: the layout each div / p / span carries inline (dfxp_choice over the
          transformed set)
    1820  to_xml_attribute of Point / Stretch / Padding and from_xml_attribute of the result *)
 From Coq Require Import List ZArith QArith Bool.
 From PV Require Import lib.Sx lib.Str lib.Result.
-From PV Require Import model.Geometry model.Positioning model.DfxpTree model.DfxpClean spec.SpecGeom spec.SpecPos spec.SpecPos7.
+From PV Require Import model.Geometry model.Positioning model.DfxpTree model.DfxpClean model.TimeRead model.VttSettings spec.SpecGeom spec.SpecPos spec.SpecPos7.
 From PV Require Import extract.OrCommon extract.OrGeom extract.OrPos.
 Import ListNotations.
 Open Scope Z_scope.
@@ -32,6 +33,12 @@ Definition req7 (code : Z) (arg : sx) : sx :=
       match sx_opt sx_layout g, sx_listof sx_dlang s with
       | Some g, Some s => SL [of_xdoc (write_doc_clean g s); SI (Z.of_nat (length (x_regions (write_doc g s))))]
       | _, _ => bad end
+  | 1213, SS line =>
+      match vtt_cue_settings line with
+      | None => SL [SI 0]
+      | Some None => SL [SI 1]
+      | Some (Some st) => SL [SI 2; SS st; SS (vtt_timing_text (lit "00:01.000") (lit "00:02.000") (VRaw st))]
+      end
   | 1320, SL [c; s] =>
       match sx_cfg c, sx_nset s with
       | Some c, Some s => of_result (fun s' => of_list (of_opt of_layout) (inline_layouts s')) (dfxp_transform_inline c s)
@@ -50,6 +57,6 @@ Definition req7 (code : Z) (arg : sx) : sx :=
 
 Definition dispatch (code : Z) (arg : sx) : option sx :=
   match code with
-  | 1211 | 1320 | 1820 => Some (req7 code arg)
+  | 1211 | 1213 | 1320 | 1820 => Some (req7 code arg)
   | _ => None
   end.
